@@ -260,4 +260,207 @@ theorem valWord_none_iff (O : Oracle) (op : Nat) (v : Val) (h : typedLeaf O op v
     have hs := (kindOf_spec hk).2
     cases k <;> cases v <;> simp [hk] at h <;> simp [valWord] <;> first | (exact hs.1 rfl) | (intro e; have := hs.2 e; cases this)
 
+
+theorem negCode_le (neg : Bool) (key : Tok) : negCode neg key ≤ 2 := by
+  unfold negCode; split <;> (try split) <;> omega
+
+theorem leaf_toS_wf (O : Oracle) (neg : Bool) (key : Tok) (op : Nat) (v : Val)
+    (hk : isStructural key = false) (ht : typedLeaf O op v = true) : (toSN neg (.leaf key op v)).wf = true := by
+  have hkind : ∃ k, kindOf op = some k := by
+    unfold typedLeaf at ht
+    cases hk : kindOf op with
+    | none => simp [hk] at ht
+    | some k => exact ⟨k, rfl⟩
+  obtain ⟨k, hkk⟩ := hkind
+  have hl := (kindOf_spec hkk).1
+  have hv := valWord_wf O op v ht
+  have hn := valWord_none_iff O op v ht
+  simp only [toSN, SCond.wf, wordOf_wf, wordOf_text, hk, hl, negCode_le, Bool.and_eq_true, decide_eq_true_eq]
+  refine ⟨⟨⟨⟨by decide, trivial⟩, by simp⟩, trivial⟩, ?_⟩
+  cases hvw : valWord v with
+  | none => simpa using hn.1 hvw
+  | some w =>
+    simp only [hvw] at hv
+    have : op ≠ opExists := fun e => by rw [hn.2 e] at hvw; cases hvw
+    simp [this, hv]
+
+mutual
+theorem toSN_wf (O : Oracle) (neg : Bool) : (c : Cond) → Cond.wfN O neg c = true → (toSN neg c).wf = true
+  | .leaf key op v, h => by
+    simp only [Cond.wfN, Bool.and_eq_true, Bool.not_eq_true'] at h
+    exact leaf_toS_wf O neg key op v h.1 h.2
+  | .bad _, h => by simp [Cond.wfN] at h
+  | .and cs, h => by
+    simp only [Cond.wfN, Bool.and_eq_true, decide_eq_true_eq] at h
+    have := toSL_wf O cs h.2
+    simp only [toSN, SCond.wf, this, toSL_length, Bool.and_eq_true, decide_eq_true_eq]
+    exact ⟨⟨⟨⟨by decide, by decide⟩, by decide⟩, trivial⟩, h.1⟩
+  | .or cs, h => by
+    simp only [Cond.wfN, Bool.and_eq_true, decide_eq_true_eq] at h
+    have := toSL_wf O cs h.2
+    simp only [toSN, SCond.wf, this, toSL_length, Bool.and_eq_true, decide_eq_true_eq]
+    exact ⟨⟨⟨⟨by decide, by decide⟩, by decide⟩, trivial⟩, h.1⟩
+  | .not c, h => by
+    simp only [Cond.wfN, Bool.and_eq_true, Bool.not_eq_true'] at h
+    simpa [toSN] using toSN_wf O true c h.2
+theorem toSL_wf (O : Oracle) : (cs : List Cond) → wfL O cs = true → kidsWf (toSL cs) = true
+  | [], _ => rfl
+  | c :: cs, h => by
+    simp only [wfL, Bool.and_eq_true] at h
+    simp [toSL, kidsWf, toSN_wf O false c h.1, toSL_wf O cs h.2]
+end
+
+theorem negCode_zero (neg : Bool) (key : Tok) : (negCode neg key = 0) ↔ neg = false := by
+  unfold negCode; cases neg <;> simp <;> split <;> omega
+
+mutual
+theorem toSN_cond (O : Oracle) (neg : Bool) : (c : Cond) → Cond.wfN O neg c = true →
+    (toSN neg c).cond O = if neg then .not c else c
+  | .leaf key op v, h => by
+    simp only [Cond.wfN, Bool.and_eq_true, Bool.not_eq_true'] at h
+    have ht := h.2
+    have hkind : ∃ k, kindOf op = some k := by
+      unfold typedLeaf at ht
+      cases hk : kindOf op with
+      | none => simp [hk] at ht
+      | some k => exact ⟨k, rfl⟩
+    obtain ⟨k, hkk⟩ := hkind
+    have hl := (kindOf_spec hkk).1
+    have hm := mkWhere_typed O key op v ht
+    simp only [argOf] at hm
+    simp only [toSN, SCond.cond, hl, wordOf_text, negCode_zero]
+    cases hvw : valWord v <;> simp only [hvw] at hm <;> cases neg <;> simp [hm]
+  | .bad _, h => by simp [Cond.wfN] at h
+  | .and cs, h => by
+    simp only [Cond.wfN, Bool.and_eq_true, decide_eq_true_eq] at h
+    simp only [toSN, SCond.cond, toSL_cond O cs h.2, Bool.false_eq_true, if_false]
+  | .or cs, h => by
+    simp only [Cond.wfN, Bool.and_eq_true, decide_eq_true_eq] at h
+    simp only [toSN, SCond.cond, toSL_cond O cs h.2, if_true]
+  | .not c, h => by
+    simp only [Cond.wfN, Bool.and_eq_true, Bool.not_eq_true'] at h
+    have := toSN_cond O true c h.2
+    simp only [h.1, toSN, this, if_true, Bool.false_eq_true, if_false]
+theorem toSL_cond (O : Oracle) : (cs : List Cond) → wfL O cs = true → condList O (toSL cs) = cs
+  | [], _ => rfl
+  | c :: cs, h => by
+    simp only [wfL, Bool.and_eq_true] at h
+    have := toSN_cond O false c h.1
+    simp only [Bool.false_eq_true, if_false] at this
+    simp [toSL, condList, this, toSL_cond O cs h.2]
+end
+
+
+/-! ### `Condition.string()` writes that sentence -/
+
+theorem valStr_eq (v : Val) : valStr v = match valWord v with | none => [] | some w => ' ' :: w.render := by
+  cases v <;> simp only [valStr, valWord, wordOf_render] <;> rfl
+
+theorem notStr_quote (rest : List Char) : notStr ('"' :: rest) = kwNot ++ ' ' :: '"' :: rest := by
+  simp [notStr, kwNot]
+
+theorem notStr_paren (rest : List Char) : notStr ('(' :: rest) = kwNot ++ ' ' :: '(' :: rest := by
+  simp [notStr, kwNot]
+
+theorem takeWhile_nospace (key rest : List Char) (h : key.any isSpecial = false) :
+    (key ++ ' ' :: rest).takeWhile (· ≠ ' ') = key ∧ (key ++ ' ' :: rest).dropWhile (· ≠ ' ') = ' ' :: rest := by
+  induction key with
+  | nil => simp
+  | cons c r ih =>
+    simp only [List.any_cons, Bool.or_eq_false_iff] at h
+    have hc : c ≠ ' ' := by intro e; subst e; simp [isSpecial] at h
+    have e1 : (decide (c ≠ ' ')) = true := by simp [hc]
+    have := ih h.2
+    rw [List.cons_append, List.takeWhile_cons, List.dropWhile_cons]
+    simp only [e1, if_true]
+    exact ⟨by rw [this.1], this.2⟩
+
+theorem notStr_raw (key rest : List Char) (h1 : key ≠ []) (h2 : key.any isSpecial = false) :
+    notStr (key ++ ' ' :: rest) = key ++ [' ','n','o','t'] ++ ' ' :: rest := by
+  have ht := takeWhile_nospace key rest h2
+  cases key with
+  | nil => exact absurd rfl h1
+  | cons c r =>
+    simp only [List.any_cons, Bool.or_eq_false_iff] at h2
+    have hc1 : c ≠ '(' := by intro e; subst e; simp [isSpecial] at h2
+    have hc2 : c ≠ '"' := by intro e; subst e; simp [isSpecial] at h2
+    simp only [notStr, List.cons_append, List.head?_cons, Option.some.injEq, hc1, hc2, or_self, if_false]
+    simp only [List.cons_append] at ht
+    rw [ht.1, ht.2]
+    simp
+
+theorem leaf_render (neg : Bool) (key : Tok) (op : Nat) (v : Val) :
+    (toSN neg (.leaf key op v)).render =
+      if neg then notStr (condStr (.leaf key op v)) else condStr (.leaf key op v) := by
+  simp only [toSN, SCond.render, condStr, wordOf_render, valStr_eq]
+  generalize valWord v = vw
+  have key_lemma : ∀ (X : List Char),
+      ((if negCode neg key = 2 then kwNot ++ [' '] else []) ++ esc key ++
+        (if negCode neg key = 1 then [' '] ++ kwNot else [])) ++ [' '] ++ opName op ++ X =
+      if neg then notStr (esc key ++ ' ' :: opName op ++ X) else esc key ++ ' ' :: opName op ++ X := by
+    intro X
+    cases neg with
+    | false => simp [negCode]
+    | true =>
+      by_cases hq : key = [] ∨ key.any isSpecial = true
+      · have he : esc key = '"' :: (escBody key ++ ['"']) := by unfold esc; rw [if_pos hq]; rfl
+        simp only [negCode, if_true, hq, he, List.cons_append, notStr_quote]
+        simp [kwNot, List.append_assoc]
+      · have he : esc key = key := by unfold esc; rw [if_neg hq]
+        have hq2 := hq
+        simp only [not_or, Bool.not_eq_true] at hq2
+        simp only [negCode, if_true, he, hq, if_false, List.append_assoc, List.cons_append]
+        rw [notStr_raw key (opName op ++ X) hq2.1 hq2.2]
+        simp [kwNot, List.append_assoc]
+  cases vw with
+  | none => simpa using key_lemma []
+  | some w => simpa using key_lemma (' ' :: w.render)
+
+theorem renderMembers_cons2 (sep : List Char) (c c' : SCond) (cs : List SCond) :
+    renderMembers sep (c :: c' :: cs) = c.render ++ sep ++ renderMembers sep (c' :: cs) := by
+  simp [renderMembers]
+
+theorem joinStr_cons2 (sep : List Char) (c c' : Cond) (cs : List Cond) :
+    joinStr sep (c :: c' :: cs) = condStr c ++ sep ++ joinStr sep (c' :: cs) := by
+  simp [joinStr]
+
+mutual
+theorem toSN_render (O : Oracle) (neg : Bool) : (c : Cond) → Cond.wfN O neg c = true →
+    (toSN neg c).render = if neg then notStr (condStr c) else condStr c
+  | .leaf key op v, _ => leaf_render neg key op v
+  | .bad _, h => by simp [Cond.wfN] at h
+  | .and cs, h => by
+    simp only [Cond.wfN, Bool.and_eq_true, decide_eq_true_eq] at h
+    have := toSL_render O [' ','a','n','d',' '] cs h.2
+    have hsep : [' '] ++ connective false ++ [' '] = [' ','a','n','d',' '] := rfl
+    simp only [toSN, SCond.render, hsep, this, condStr]
+    cases neg <;> simp [notStr_paren, kwNot]
+  | .or cs, h => by
+    simp only [Cond.wfN, Bool.and_eq_true, decide_eq_true_eq] at h
+    have := toSL_render O [' ','o','r',' '] cs h.2
+    have hsep : [' '] ++ connective true ++ [' '] = [' ','o','r',' '] := rfl
+    simp only [toSN, SCond.render, hsep, this, condStr]
+    cases neg <;> simp [notStr_paren, kwNot]
+  | .not c, h => by
+    simp only [Cond.wfN, Bool.and_eq_true, Bool.not_eq_true'] at h
+    have := toSN_render O true c h.2
+    simp only [h.1, toSN, this, if_true, Bool.false_eq_true, if_false, condStr]
+theorem toSL_render (O : Oracle) (sep : List Char) : (cs : List Cond) → wfL O cs = true →
+    renderMembers sep (toSL cs) = joinStr sep cs
+  | [], _ => rfl
+  | [c], h => by
+    simp only [wfL, Bool.and_eq_true] at h
+    have := toSN_render O false c h.1
+    simp only [Bool.false_eq_true, if_false] at this
+    simp [toSL, renderMembers, joinStr, this]
+  | c :: c' :: cs, h => by
+    simp only [wfL, Bool.and_eq_true] at h
+    have h1 := toSN_render O false c h.1
+    simp only [Bool.false_eq_true, if_false] at h1
+    have h2 := toSL_render O sep (c' :: cs) (by simp [wfL, h.2.1, h.2.2])
+    have e : toSL (c :: c' :: cs) = toSN false c :: toSN false c' :: toSL cs := by simp [toSL]
+    have e' : toSL (c' :: cs) = toSN false c' :: toSL cs := by simp [toSL]
+    rw [e, renderMembers_cons2, joinStr_cons2, h1, ← e', h2]
+end
+
 end PB.Query
